@@ -3,10 +3,10 @@ package main
 import "fmt"
 
 // number of templates in harness/commonmark/h_tl.go
-const nTL = 85
+const nTL = 95
 
 // quick-tier subset of TL (at most two holes, cheap)
-var tlQuick = []int{0, 1, 2, 3, 5, 6, 7, 8, 9, 10, 11, 12, 13, 14, 15, 16, 17, 18, 19, 20, 22, 23, 24, 25, 27, 28, 29, 30, 32, 33, 34, 35, 39, 40, 44, 48, 49, 53, 54, 59, 60, 61, 62, 63, 64, 65, 66, 67, 68, 69, 70, 71, 72, 73, 74, 75, 76, 77, 78, 79, 80, 81, 82, 83, 84}
+var tlQuick = []int{0, 1, 2, 3, 5, 6, 7, 8, 9, 10, 11, 12, 13, 14, 15, 16, 17, 18, 19, 20, 22, 23, 24, 25, 27, 28, 29, 30, 32, 33, 34, 35, 39, 40, 44, 48, 49, 53, 54, 59, 60, 61, 62, 63, 64, 65, 66, 67, 68, 69, 70, 71, 72, 73, 74, 75, 76, 77, 78, 79, 80, 81, 82, 83, 84, 85, 86, 87, 88, 89, 90, 91, 92, 93, 94}
 
 func fJobs(h string, quickN []int, thoroughN []int, second int64, clausePanic string) []JobSpec {
 	var js []JobSpec
@@ -37,14 +37,14 @@ func tlJobs(h string) []JobSpec {
 
 // multi-line members of TL that are also run with CRLF (quick) and bare-CR (thorough)
 // line endings (template kinds 6 and 7 of treeInput)
-var tlMultiLine = []int{9, 10, 13, 14, 20, 29, 33, 34, 39, 40, 44, 53, 59, 60, 61, 62, 63, 64, 68, 70, 73, 75, 81}
+var tlMultiLine = []int{9, 10, 13, 14, 20, 29, 33, 34, 39, 40, 44, 53, 59, 60, 61, 62, 63, 64, 68, 70, 73, 75, 81, 87, 88, 89, 94}
 
 func tlEOLJobs(h string) []JobSpec {
 	var js []JobSpec
 	for _, i := range tlMultiLine {
 		js = append(js, JobSpec{Pkg: pkgCM, Harness: h, Params: []int64{6, int64(i)}, Bound: fmt.Sprintf("TL[%d] with CRLF line endings", i), Tier: "quick"})
 		crTier := "thorough"
-		if i == 20 || i == 29 || i == 53 || i == 81 {
+		if i == 14 || i == 20 || i == 29 || i == 53 || i == 81 || i == 87 {
 			crTier = "quick"
 		}
 		js = append(js, JobSpec{Pkg: pkgCM, Harness: h, Params: []int64{7, int64(i)}, Bound: fmt.Sprintf("TL[%d] with bare-CR line endings", i), Tier: crTier})
@@ -66,7 +66,7 @@ var commonAssumptions = []string{
 var tlNoShape = map[int]bool{16: true, 17: true, 23: true, 24: true, 25: true, 35: true, 56: true}
 
 func treeSpec(id, h, expl string, streamH string) *PropSpec {
-	p := &PropSpec{ID: id, Level: "model_checking", Explanation: expl, Assumptions: commonAssumptions, QuickSec: 170, ThoroughSec: 1200}
+	p := &PropSpec{ID: id, Level: "model_checking", Explanation: expl, Assumptions: commonAssumptions, QuickSec: 170, ThoroughSec: 900}
 	p.Jobs = append(p.Jobs, fJobs(h, []int{1, 2, 3}, []int{4}, 0, "")...)
 	for _, j := range tlJobs(h) {
 		if id == "C13" && tlNoShape[int(j.Params[1])] {
@@ -85,7 +85,7 @@ func propSpecs() map[string]*PropSpec {
 	m := map[string]*PropSpec{}
 	add := func(p *PropSpec) { m[p.ID] = p }
 
-	c01 := &PropSpec{ID: "C01", Level: "model_checking", Assumptions: commonAssumptions, QuickSec: 170, ThoroughSec: 1200,
+	c01 := &PropSpec{ID: "C01", Level: "model_checking", Assumptions: commonAssumptions, QuickSec: 170, ThoroughSec: 900,
 		Explanation: "bounded symbolic execution of Parse and of NewBlockParser/NextBlock on symbolic inputs; tiling, offset, line, Source, aliasing and no-write clauses asserted on every path"}
 	for _, e := range []int64{0, 1} {
 		name := "in-memory Parse"
@@ -123,7 +123,7 @@ func propSpecs() map[string]*PropSpec {
 	add(treeSpec("C03", "H_C03", "bounded symbolic execution of Parse; leaf cover counted per source byte; no-dup and no-loss clauses asserted on every path", ""))
 	add(treeSpec("C05", "H_C05", "bounded symbolic execution of Parse; node grammar table and accessor ranges asserted for every node on every path", "H_C05s"))
 	add(treeSpec("C13", "H_C13", "bounded symbolic execution of Parse; construct shape table evaluated on Source[span] (symbolic bytes) for every node on every path", ""))
-	c15 := &PropSpec{ID: "C15", Level: "model_checking", Assumptions: append([]string{"a 'line' is n bytes without LF/CR followed by one of: nothing, LF, CR, CRLF; leading indentation already stripped (first byte not space/tab), as the recognisers' callers guarantee"}, commonAssumptions...), QuickSec: 170, ThoroughSec: 1200,
+	c15 := &PropSpec{ID: "C15", Level: "model_checking", Assumptions: append([]string{"a 'line' is n bytes without LF/CR followed by one of: nothing, LF, CR, CRLF; leading indentation already stripped (first byte not space/tab), as the recognisers' callers guarantee"}, commonAssumptions...), QuickSec: 170, ThoroughSec: 900,
 		Explanation: "unit-level bounded symbolic execution of the unexported recognisers and classifiers against reference recognisers transcribed from the CommonMark 0.30 text, plus the same decisions observed through Parse; NormalizeURI and IsEmailAddress against RFC 3986 character classes / the spec's regular expression"}
 	j := func(h string, a int64, bound, tier string) {
 		c15.Jobs = append(c15.Jobs, JobSpec{Pkg: pkgCM, Harness: h, Params: []int64{a, 0}, Bound: bound, Tier: tier})
@@ -161,7 +161,7 @@ func propSpecs() map[string]*PropSpec {
 	add(c15)
 
 	// ---- C04
-	c04 := &PropSpec{ID: "C04", Level: "model_checking", Assumptions: append([]string{"non-termination is approximated by a per-path budget of 20,000,000 SSA instructions (the longest path on the unchanged tree uses < 200,000); a budget hit is confirmed natively with a 20 s watchdog before it is reported", "stack exhaustion and out-of-memory are outside the claim; nesting depth is bounded by the templates (<= 8)"}, commonAssumptions...), QuickSec: 170, ThoroughSec: 1200,
+	c04 := &PropSpec{ID: "C04", Level: "model_checking", Assumptions: append([]string{"non-termination is approximated by a per-path budget of 20,000,000 SSA instructions (the longest path on the unchanged tree uses < 200,000); a budget hit is confirmed natively with a 20 s watchdog before it is reported", "stack exhaustion and out-of-memory are outside the claim; nesting depth is bounded by the templates (<= 8)"}, commonAssumptions...), QuickSec: 170, ThoroughSec: 900,
 		Explanation: "bounded symbolic execution of Parse, NextBlock (one-shot and 1-byte readers) + Rewrite, Render under 18 configurations (3 soft-break modes x IgnoreRaw x {nil, GFM, reject-all}), Walk, and format.Format; any feasible path that panics or exhausts the step budget is a violation, error values are asserted"}
 	for n := int64(1); n <= 3; n++ {
 		c04.Jobs = append(c04.Jobs, JobSpec{Pkg: pkgCM, Harness: "H_C04", Params: []int64{0, n}, Bound: fmt.Sprintf("F(%d)", n), Tier: "quick", Panic: "C04.no-panic", Budget: "C04.terminates", Cert: 16})
@@ -180,6 +180,9 @@ func propSpecs() map[string]*PropSpec {
 	for _, kn := range [][2]int64{{3, 998}, {3, 1001}, {3, 3000}, {4, 998}, {4, 1001}, {5, 200}, {6, 63}, {6, 65}, {7, 7}} {
 		c04.Jobs = append(c04.Jobs, JobSpec{Pkg: pkgCM, Harness: "H_C04", Params: kn[:], Bound: fmt.Sprintf("C04 size-boundary input kind %d with n=%d", kn[0], kn[1]), Tier: "thorough", Panic: "C04.no-panic", Budget: "C04.terminates"})
 	}
+	for _, i := range []int64{0, 1, 2, 3, 5, 10, 20, 21, 23, 24} {
+		c04.Jobs = append(c04.Jobs, JobSpec{Pkg: pkgCM, Harness: "H_C04", Params: []int64{8, i}, Bound: fmt.Sprintf("attribute-emission template %d (free bytes in destinations, titles, info strings, autolinks)", i), Tier: "quick", Panic: "C04.no-panic", Budget: "C04.terminates"})
+	}
 	for n := int64(1); n <= 3; n++ {
 		c04.Jobs = append(c04.Jobs, JobSpec{Pkg: pkgFmt, Harness: "H_C04_format", Params: []int64{n, 0}, Bound: fmt.Sprintf("format.Format on F(%d)", n), Tier: "quick", Panic: "C04.no-panic", Budget: "C04.terminates"})
 	}
@@ -190,14 +193,14 @@ func propSpecs() map[string]*PropSpec {
 	add(c04)
 
 	// ---- C07
-	c07 := &PropSpec{ID: "C07", Level: "model_checking", Assumptions: commonAssumptions, QuickSec: 170, ThoroughSec: 1200,
+	c07 := &PropSpec{ID: "C07", Level: "model_checking", Assumptions: commonAssumptions, QuickSec: 170, ThoroughSec: 900,
 		Explanation: "bounded symbolic execution of Parse + Render with IgnoreRaw=true (3 soft-break modes) and IgnoreRaw=false on raw-free documents; a strict tokenizer over the symbolic output bytes asserts tag/attribute vocabulary, nesting, quoting and escaping, and the tag/attribute-name skeleton is compared with one computed from the tree alone"}
 	for n := int64(1); n <= 3; n++ {
 		c07.Jobs = append(c07.Jobs, JobSpec{Pkg: pkgCM, Harness: "H_C07", Params: []int64{n, 0}, Bound: fmt.Sprintf("F(%d)", n), Tier: "quick", Cert: 16})
 	}
 	c07.Jobs = append(c07.Jobs, JobSpec{Pkg: pkgCM, Harness: "H_C07", Params: []int64{4, 0}, Bound: "F(4)", Tier: "thorough"})
 	heavyAttr := map[int]bool{5: true, 8: true, 10: true}
-	for i := 0; i < 24; i++ {
+	for i := 0; i < 26; i++ {
 		t := "quick"
 		if heavyAttr[i] {
 			t = "thorough"
@@ -210,7 +213,7 @@ func propSpecs() map[string]*PropSpec {
 	add(c07)
 
 	// ---- C10
-	c10 := &PropSpec{ID: "C10", Level: "model_checking", Assumptions: append([]string{"conventions pinned by the reference renderer (DESIGN.md §C10): escape sets, attribute order, <br>+LF, verbatim character references, first word of the info string (strings.Fields), close tags offered to FilterTag with their slash"}, commonAssumptions...), QuickSec: 170, ThoroughSec: 1200,
+	c10 := &PropSpec{ID: "C10", Level: "model_checking", Assumptions: append([]string{"conventions pinned by the reference renderer (DESIGN.md §C10): escape sets, attribute order, <br>+LF, verbatim character references, first word of the info string (strings.Fields), close tags offered to FilterTag with their slash"}, commonAssumptions...), QuickSec: 170, ThoroughSec: 900,
 		Explanation: "bounded symbolic execution of Parse + Render in 6 configurations per filter (3 soft-break modes x IgnoreRaw) x 6 filter predicates, compared byte for byte (one solver query per comparison) with an independent reference renderer that reads the tree through the public API; determinism, purity (the tree and all pre-existing state are frozen during rendering) and the block-join rule are asserted"}
 	fnames := []string{"nil", "GFM", "reject-all", "reject-none", "{xmp}", "{b,script}"}
 	for f := int64(0); f < 6; f++ {
@@ -223,7 +226,7 @@ func propSpecs() map[string]*PropSpec {
 		}
 		c10.Jobs = append(c10.Jobs, JobSpec{Pkg: pkgCM, Harness: "H_C10", Params: []int64{3, f}, Bound: fmt.Sprintf("F(3), FilterTag=%s", fnames[f]), Tier: t})
 	}
-	for i := 0; i < 24; i++ {
+	for i := 0; i < 26; i++ {
 		t := "quick"
 		if heavyAttr[i] {
 			t = "thorough"
@@ -231,7 +234,7 @@ func propSpecs() map[string]*PropSpec {
 		c10.Jobs = append(c10.Jobs, JobSpec{Pkg: pkgCM, Harness: "H_C10", Params: []int64{int64(2000 + i), 0}, Bound: fmt.Sprintf("attribute-emission template %d, FilterTag=nil", i), Tier: t})
 	}
 	for _, f := range []int64{1, 2, 4, 5} {
-		for _, i := range []int64{14, 15, 16, 17} {
+		for _, i := range []int64{14, 15, 16, 17, 24, 25} {
 			if i >= 16 && (f == 1 || f == 4) {
 				continue // name look-ups over free bytes are slow under GFM; reject-all and {b,script} cover the scanner
 			}
@@ -244,7 +247,7 @@ func propSpecs() map[string]*PropSpec {
 	add(c10)
 
 	// ---- C17
-	c17 := &PropSpec{ID: "C17", Level: "model_checking", Assumptions: append([]string{"HTML tokenization per the WHATWG data, tag-open, end-tag-open, tag-name, attribute, markup-declaration-open, comment and bogus-comment states; RCDATA/RAWTEXT states are never entered because every raw-text element is rejected by the predicates considered"}, commonAssumptions...), QuickSec: 170, ThoroughSec: 1200,
+	c17 := &PropSpec{ID: "C17", Level: "model_checking", Assumptions: append([]string{"HTML tokenization per the WHATWG data, tag-open, end-tag-open, tag-name, attribute, markup-declaration-open, comment and bogus-comment states; RCDATA/RAWTEXT states are never entered because every raw-text element is rejected by the predicates considered"}, commonAssumptions...), QuickSec: 170, ThoroughSec: 900,
 		Explanation: "bounded symbolic execution of Parse + Render with and without a predicate on HTML templates with symbolic holes; the filtered output (symbolic bytes) is aligned with the unfiltered one (only '<' -> '&lt;') and tokenised by a WHATWG-state tokenizer that must never emit a start tag the predicate rejects"}
 	pnames := []string{"GFM", "reject-all", "reject-none", "{xmp}", "{x,xmp,script}"}
 	for i := int64(0); i < 9; i++ {
@@ -277,7 +280,7 @@ func propSpecs() map[string]*PropSpec {
 		p.Jobs = append(p.Jobs, JobSpec{Pkg: pkgCM, Harness: h, Params: []int64{a, b}, Bound: bound, Tier: tier})
 	}
 	// ---- C08
-	c08 := &PropSpec{ID: "C08", Level: "model_checking", Assumptions: append([]string{"reader model: the j-th Read returns min(c_j, remaining, len(p)) bytes with c_j a solver variable in 0..remaining, at most two consecutive empty reads, optionally the terminal condition (io.EOF or the injected error) together with the last data", "lines >= 8 KiB (buffer growth, block-too-large error) are outside the claim"}, commonAssumptions...), QuickSec: 170, ThoroughSec: 1200,
+	c08 := &PropSpec{ID: "C08", Level: "model_checking", Assumptions: append([]string{"reader model: the j-th Read returns min(c_j, remaining, len(p)) bytes with c_j a solver variable in 0..remaining, at most two consecutive empty reads, optionally the terminal condition (io.EOF or the injected error) together with the last data", "lines >= 8 KiB (buffer growth, block-too-large error) are outside the claim"}, commonAssumptions...), QuickSec: 170, ThoroughSec: 900,
 		Explanation: "bounded symbolic execution of NewBlockParser/NextBlock/Extract/Rewrite under a symbolic read schedule (chunk sizes, empty reads, EOF-with-data) and under a symbolic fault point k, compared with in-memory Parse of the same bytes (of the first k bytes) by deep tree/position/reference-map equality; terminal error persistence asserted"}
 	for n := int64(1); n <= 3; n++ {
 		cm(c08, "H_C08", n, 0, fmt.Sprintf("A(%d, 13-byte-class alphabet), all read schedules", n), "quick")
@@ -287,6 +290,7 @@ func propSpecs() map[string]*PropSpec {
 	cm(c08, "H_C08", 102, 1, "F(2), all fault points", "quick")
 	cm(c08, "H_C08_big", 2731, 0, "one free byte + 2731 NUL + \"a\\nb\" (NUL padding crosses the 8 KiB chunk); first two read sizes from {1,3,8191,8192,all}", "quick")
 	cm(c08, "H_C08_big", 8191, 1, "one free byte + 8191 'x' + \"a\\nb\" (line crosses the 8 KiB chunk); first two read sizes from the menu", "quick")
+	cm(c08, "H_C08_big", 8191, 3, "one free byte + 8190 'x' + a bare CR ending exactly at the 8 KiB chunk + \"a\\nb\"; first two read sizes from the menu", "quick")
 	for _, k := range []int64{2729, 2730, 2732, 5461, 5462} {
 		cm(c08, "H_C08_big", k, 0, fmt.Sprintf("one free byte + %d NUL + \"a\\nb\"; first two read sizes from the menu", k), "thorough")
 	}
@@ -299,13 +303,16 @@ func propSpecs() map[string]*PropSpec {
 	for _, t := range []int64{11, 12, 13} {
 		cm(c08, "H_C08_cut", t, 0, fmt.Sprintf("C01 template %d (CRLF / bare-CR document with blank-line runs) cut into two reads at every position", t), "quick")
 	}
+	for _, t := range []int64{10, 12, 59, 62, 83, 93} {
+		cm(c08, "H_C08_tl", t, 0, fmt.Sprintf("TL[%d] (reference definitions at top level and inside containers) cut into two reads at every position", t), "quick")
+	}
 	cm(c08, "H_C08", 4, 0, "A(4), all read schedules", "thorough")
 	cm(c08, "H_C08", 4, 1, "A(4), all fault points", "thorough")
 	cm(c08, "H_C08", 103, 0, "F(3), all read schedules", "thorough")
 	add(c08)
 
 	// ---- C16
-	c16 := &PropSpec{ID: "C16", Level: "model_checking", Assumptions: commonAssumptions, QuickSec: 170, ThoroughSec: 1200,
+	c16 := &PropSpec{ID: "C16", Level: "model_checking", Assumptions: commonAssumptions, QuickSec: 170, ThoroughSec: 900,
 		Explanation: "bounded symbolic execution: stream-parse + Rewrite the document, then parse every root block's Source alone with the same reference matcher; exactly one block, identical tree dump, StartOffset 0, StartLine 1"}
 	for n := int64(1); n <= 3; n++ {
 		cm(c16, "H_C16", 0, n, fmt.Sprintf("F(%d)", n), "quick")
@@ -328,7 +335,7 @@ func propSpecs() map[string]*PropSpec {
 	add(c16)
 
 	// ---- C14
-	c14 := &PropSpec{ID: "C14", Level: "model_checking", Assumptions: append([]string{"padding clause: a pad ending in CR is not combined with an input starting with LF (that forms a CRLF rather than prepending a blank line)", "final-newline clause compared in safe mode modulo line endings adjacent to tags outside <pre>"}, commonAssumptions...), QuickSec: 170, ThoroughSec: 1200,
+	c14 := &PropSpec{ID: "C14", Level: "model_checking", Assumptions: append([]string{"padding clause: a pad ending in CR is not combined with an input starting with LF (that forms a CRLF rather than prepending a blank line)", "final-newline clause compared in safe mode modulo line endings adjacent to tags outside <pre>"}, commonAssumptions...), QuickSec: 170, ThoroughSec: 900,
 		Explanation: "bounded symbolic execution of Parse+Render on x and on crlf(x)/cr(x), pad.x, x.LF built in the harness; outputs compared (one solver query per comparison) after mapping copied line endings; offsets and lines shifted exactly"}
 	for n := int64(1); n <= 3; n++ {
 		cm(c14, "H_C14_eol", 0, n, fmt.Sprintf("line-ending clause, F(%d) without CR", n), "quick")
@@ -337,7 +344,7 @@ func propSpecs() map[string]*PropSpec {
 	cm(c14, "H_C14_pad", 0, 1, "padding clause, F(1) x 5 pads", "quick")
 	cm(c14, "H_C14_pad", 0, 2, "padding clause, F(2) x 5 pads", "quick")
 	cm(c14, "H_C14_pad", 0, 3, "padding clause, F(3) x 5 pads", "thorough")
-	for i := int64(0); i < 14; i++ {
+	for i := int64(0); i < 17; i++ {
 		if i != 10 && i != 11 { // templates 10 and 11 end in a line ending: outside the final-newline clause (twin: vacuous)
 			cm(c14, "H_C14_final", 4, i, fmt.Sprintf("final-newline clause, C14 template %d", i), "quick")
 		}
@@ -355,7 +362,7 @@ func propSpecs() map[string]*PropSpec {
 	add(c14)
 
 	// ---- C09
-	c09 := &PropSpec{ID: "C09", Level: "model_checking", Assumptions: append([]string{"quote clause uses the marker '> ' on every line (a bare '>' would consume one column of D's own indentation)", "list clause: a one-item list is tight, so <p> tags are removed from both sides before comparison; markers -, +, *, 1., 9), 12. and N in 1..4 are solver variables", "compared on the safe-mode rendering modulo line endings adjacent to tags outside <pre>"}, commonAssumptions...), QuickSec: 170, ThoroughSec: 1200,
+	c09 := &PropSpec{ID: "C09", Level: "model_checking", Assumptions: append([]string{"quote clause uses the marker '> ' on every line (a bare '>' would consume one column of D's own indentation)", "list clause: a one-item list is tight, so <p> tags are removed from both sides before comparison; markers -, +, *, 1., 9), 12. and N in 1..4 are solver variables", "compared on the safe-mode rendering modulo line endings adjacent to tags outside <pre>"}, commonAssumptions...), QuickSec: 170, ThoroughSec: 900,
 		Explanation: "bounded symbolic execution of Parse+Render on D and on its quoted / list-indented form built in the harness; single-root and HTML-relation clauses asserted on symbolic outputs"}
 	for n := int64(1); n <= 3; n++ {
 		cm(c09, "H_C09_quote", 0, n, fmt.Sprintf("quote clause, tab-free F(%d)", n), "quick")
@@ -370,10 +377,10 @@ func propSpecs() map[string]*PropSpec {
 	cm(c09, "H_C09_list", 0, 1, "list clause, F(1) x 6 markers x 4 widths", "quick")
 	cm(c09, "H_C09_list", 0, 2, "list clause, F(2) x 6 markers x 4 widths", "quick")
 	cm(c09, "H_C09_list", 0, 3, "list clause, F(3) x 6 markers x 4 widths", "thorough")
-	for _, i := range []int64{9, 13, 14, 20, 29, 33, 34, 39, 40, 51, 53, 59, 61, 73, 76, 82, 83, 84} {
+	for _, i := range []int64{9, 13, 14, 20, 29, 33, 34, 39, 40, 51, 53, 59, 61, 73, 76, 82, 83, 84, 87, 88, 89, 92} {
 		cm(c09, "H_C09_quote", 1, i, fmt.Sprintf("quote clause, multi-line template TL[%d]", i), "quick")
 	}
-	for _, i := range []int64{9, 20, 33, 39, 59, 83} {
+	for _, i := range []int64{9, 20, 33, 39, 59, 83, 87, 89} {
 		cm(c09, "H_C09_list", 1, i, fmt.Sprintf("list clause, multi-line template TL[%d]", i), "quick")
 	}
 	cm(c09, "H_C09_quote", 8, 10, "quote clause, definition + full reference with a 10-line label of 989 characters (below the 999 limit)", "quick")
@@ -387,7 +394,7 @@ func propSpecs() map[string]*PropSpec {
 	add(c09)
 
 	// ---- C11
-	c11 := &PropSpec{ID: "C11", Level: "model_checking", Assumptions: append([]string{"inputs are single paragraphs built from units: '*', '_', an ASCII letter/digit (symbolic), space, an ASCII punctuation byte from #$%()+,-./:;=?@^{|}~ (symbolic), and (second bound) U+00A0, U+2014, U+00E9; unit sequences that Parse does not read as exactly one paragraph are excluded (assume)", "the reference is the spec's process-emphasis procedure without openers_bottom, validated during design on 108 of the spec's emphasis examples"}, commonAssumptions...), QuickSec: 170, ThoroughSec: 1200,
+	c11 := &PropSpec{ID: "C11", Level: "model_checking", Assumptions: append([]string{"inputs are single paragraphs built from units: '*', '_', an ASCII letter/digit (symbolic), space, an ASCII punctuation byte from #$%()+,-./:;=?@^{|}~ (symbolic), and (second bound) U+00A0, U+2014, U+00E9; unit sequences that Parse does not read as exactly one paragraph are excluded (assume)", "the reference is the spec's process-emphasis procedure without openers_bottom, validated during design on 108 of the spec's emphasis examples"}, commonAssumptions...), QuickSec: 170, ThoroughSec: 900,
 		Explanation: "bounded symbolic execution of Parse+Render on every unit sequence up to the bound (unit classes are solver-enumerated, bytes within a class symbolic), compared byte for byte with the output of a transcription of the spec's delimiter-run algorithm"}
 	for n := int64(1); n <= 6; n++ {
 		cm(c11, "H_C11", n, 5, fmt.Sprintf("all sequences of %d units over the 5 ASCII classes", n), "quick")
@@ -407,7 +414,7 @@ func propSpecs() map[string]*PropSpec {
 	add(c11)
 
 	// ---- C12
-	c12 := &PropSpec{ID: "C12", Level: "model_checking", Assumptions: append([]string{"label alphabet {a, A, s, k, U+00DF, U+1E9E, U+212A, space, tab, LF, U+00A0, escaped ]} with case folding written out from CaseFolding.txt; case folding of other code points is trusted to golang.org/x/text", "at most one line ending per label (two could form a blank line)"}, commonAssumptions...), QuickSec: 170, ThoroughSec: 1200,
+	c12 := &PropSpec{ID: "C12", Level: "model_checking", Assumptions: append([]string{"label alphabet {a, A, s, k, U+00DF, U+1E9E, U+212A, space, tab, LF, U+00A0, escaped ]} with case folding written out from CaseFolding.txt; case folding of other code points is trusted to golang.org/x/text", "at most one line ending per label (two could form a blank line)"}, commonAssumptions...), QuickSec: 170, ThoroughSec: 900,
 		Explanation: "bounded symbolic execution of Parse on use/definition documents whose labels are solver-chosen unit sequences; resolves <=> reference-normalised labels equal; first-definition-wins over all orders and container placements; closure clauses (link keys in map, keys normalised, map equals fresh Extract) on F(n) and link templates"}
 	for _, k := range [][2]int64{{1, 1}, {2, 1}, {1, 2}, {2, 2}} {
 		cm(c12, "H_C12_norm", k[0], k[1], fmt.Sprintf("labels of %d and %d units over a 12-member alphabet", k[0], k[1]), "quick")
@@ -426,7 +433,9 @@ func propSpecs() map[string]*PropSpec {
 	for n := int64(1); n <= 3; n++ {
 		cm(c12, "H_C12_closure", 0, n, fmt.Sprintf("closure clauses on F(%d)", n), "quick")
 	}
-	for _, i := range []int64{5, 6, 8, 10, 11, 12, 13, 14, 15, 83, 84} {
+	cm(c12, "H_C12_long", 200, 0, "label of 200 x U+0390 + a free letter (400 bytes as written, 1 200 bytes after case folding)", "quick")
+	cm(c12, "H_C12_long", 480, 0, "label of 480 x U+0390 + a free letter (961 characters as written)", "thorough")
+	for _, i := range []int64{5, 6, 8, 10, 11, 12, 13, 14, 15, 83, 84, 85, 89, 93} {
 		cm(c12, "H_C12_closure", 1, i, fmt.Sprintf("closure clauses on TL[%d]", i), "quick")
 	}
 	cm(c12, "H_C12_closure", 1, 42, "closure clauses on TL[42]", "thorough")
@@ -435,7 +444,7 @@ func propSpecs() map[string]*PropSpec {
 	add(c12)
 
 	// ---- C18
-	c18 := &PropSpec{ID: "C18", Level: "model_checking", Assumptions: append([]string{"trees: the first root block / all root blocks of six fixed documents, and fully virtual trees of depth <= 2 (<= 9 nodes) or depth 3 (<= 5 nodes) whose child counts are solver variables; every Pre/Post return value and the nil-ness of Pre and Post are solver variables"}, commonAssumptions...), QuickSec: 170, ThoroughSec: 1200,
+	c18 := &PropSpec{ID: "C18", Level: "model_checking", Assumptions: append([]string{"trees: the first root block / all root blocks of six fixed documents, and fully virtual trees of depth <= 2 (<= 9 nodes) or depth 3 (<= 5 nodes) whose child counts are solver variables; every Pre/Post return value and the nil-ness of Pre and Post are solver variables"}, commonAssumptions...), QuickSec: 170, ThoroughSec: 900,
 		Explanation: "bounded symbolic execution of Walk with callbacks returning solver-chosen booleans; the recorded event trace (with cursor contents) is replayed against a recursive reference walker driven by the same decisions"}
 	for d := int64(0); d < 6; d++ {
 		cm(c18, "H_C18", 0, d, fmt.Sprintf("real tree of document %d, all callback policies", d), "quick")
@@ -457,7 +466,7 @@ func propSpecs() map[string]*PropSpec {
 	add(c18)
 
 	// ---- C06
-	c06 := &PropSpec{ID: "C06", Level: "model_checking", Assumptions: append([]string{"abstract documents are produced by the generator of harness/commonmark/gen.go (DESIGN.md Appendix D) under a node budget (blocks + inline atoms); every spelling choice of the serialiser is a solver variable; 'reduced menus' restrict some choice lists (documented in gen.go), 'full menus' use all of them", "expected HTML follows the CommonMark 0.30 mapping with this renderer's pinned conventions (character references verbatim, <br>, no closing slash), compared modulo line endings adjacent to tags outside <pre>", "constructs whose canonical spelling is ambiguous (lazy continuation, HTML block types 1-5/7, brackets in link text, adjacent same-type lists, ...) are not generated"}, commonAssumptions...), QuickSec: 200, ThoroughSec: 1300,
+	c06 := &PropSpec{ID: "C06", Level: "model_checking", Assumptions: append([]string{"abstract documents are produced by the generator of harness/commonmark/gen.go (DESIGN.md Appendix D) under a node budget (blocks + inline atoms); every spelling choice of the serialiser is a solver variable; 'reduced menus' restrict some choice lists (documented in gen.go), 'full menus' use all of them", "expected HTML follows the CommonMark 0.30 mapping with this renderer's pinned conventions (character references verbatim, <br>, no closing slash), compared modulo line endings adjacent to tags outside <pre>", "constructs whose canonical spelling is ambiguous (lazy continuation, HTML block types 1-5/7, brackets in link text, adjacent same-type lists, ...) are not generated"}, commonAssumptions...), QuickSec: 200, ThoroughSec: 1000,
 		Explanation: "bounded symbolic execution of Parse+Render on the canonical serialisation of every abstract document within the node budget, with symbolic letters/punctuation/code bytes; rendered HTML compared with the HTML computed from the abstract document"}
 	for k := int64(1); k <= 4; k++ {
 		cm(c06, "H_C06_esc", k, 0, fmt.Sprintf("%d arbitrary backslash-escaped ASCII punctuation bytes", k), "quick")
@@ -466,6 +475,9 @@ func propSpecs() map[string]*PropSpec {
 	}
 	for f, nm := range []string{"top level", "'>' block quote", "'-' list item", "'> ' block quote", "block quote inside a list item"} {
 		cm(c06, "H_C06_tabs", int64(f), 0, "tab/column arithmetic: k spaces, one or two tabs, m spaces (k, m in 0..3) behind "+nm, "quick")
+	}
+	for f, nm := range []string{"indented code", "fenced code", "an ATX heading", "a block quote", "a paragraph"} {
+		cm(c06, "H_C06_loose", int64(f), 0, "tight/loose: two-item list whose first item starts with "+nm+"; blank line between items and second block in the item are solver variables", "quick")
 	}
 	cm(c06, "H_C06", 1, 0, "documents of <= 1 node, LF, reduced menus", "quick")
 	cm(c06, "H_C06", 2, 0, "documents of <= 2 nodes, LF, reduced menus", "quick")
@@ -482,7 +494,7 @@ func propSpecs() map[string]*PropSpec {
 		p.Jobs = append(p.Jobs, JobSpec{Pkg: pkgFmt, Harness: h, Params: []int64{a, b}, Bound: bound, Tier: tier})
 	}
 	// ---- C19
-	c19 := &PropSpec{ID: "C19", Level: "other", Assumptions: append([]string{"interleavings are not explored: the schedule quantifier is discharged by non-interference - if no call writes to anything that exists before it starts (other than properly synchronised sync.Once initialisation), concurrent calls cannot race and equal the sequential result; the engine establishes that premise for every input in the bound by making every pre-existing object read-only (vfreeze) and reporting any store into one", "races inside the Go runtime, in caller-supplied writers or FilterTag functions are outside the claim", "a frozen-write violation has no native counterpart and is reported from the engine's observation"}, commonAssumptions...), QuickSec: 200, ThoroughSec: 1200,
+	c19 := &PropSpec{ID: "C19", Level: "other", Assumptions: append([]string{"interleavings are not explored: the schedule quantifier is discharged by non-interference - if no call writes to anything that exists before it starts (other than properly synchronised sync.Once initialisation), concurrent calls cannot race and equal the sequential result; the engine establishes that premise for every input in the bound by making every pre-existing object read-only (vfreeze) and reporting any store into one", "races inside the Go runtime, in caller-supplied writers or FilterTag functions are outside the claim", "a frozen-write violation has no native counterpart and is reported from the engine's observation"}, commonAssumptions...), QuickSec: 200, ThoroughSec: 900,
 		Explanation: "write-confinement premise of a non-interference argument, established by bounded symbolic execution: Parse the input, freeze the whole heap (tree, Source, reference map, renderer values, package-level tables), then Render in 12 configurations twice, Walk, Format twice; two Parse calls with all pre-existing state frozen; every store into a frozen object on any feasible path is a violation; repeatability of results asserted"}
 	for n := int64(1); n <= 3; n++ {
 		cm(c19, "H_C19", 0, n, fmt.Sprintf("Render x12 x2 + Walk on frozen trees of F(%d)", n), "quick")
@@ -491,6 +503,7 @@ func propSpecs() map[string]*PropSpec {
 	for d := int64(0); d < 6; d++ {
 		cm(c19, "H_C19_reentrant", d, 0, fmt.Sprintf("document %d: a walk and a render nested inside a callback of another walk / render of the same tree (after an aborted walk), nesting point solver-chosen", d), "quick")
 	}
+	cm(c19, "H_C19_parse_refs", 0, 0, "Parse of two documents with reference definitions and uses (label letters free) with frozen globals", "quick")
 	cm(c19, "H_C19_parse", 1, 1, "Parse(in2), Parse(in1), Parse(in2) with frozen globals, |in1|=|in2|=1", "quick")
 	cm(c19, "H_C19_parse", 2, 1, "same, |in1|=2, |in2|=1", "quick")
 	cm(c19, "H_C19_parse", 1, 2, "same, |in1|=1, |in2|=2", "quick")
@@ -506,7 +519,7 @@ func propSpecs() map[string]*PropSpec {
 	add(c19)
 
 	// ---- C20
-	c20 := &PropSpec{ID: "C20", Level: "model_checking", Assumptions: append([]string{"canonical-style documents: the C06 generator restricted to the construct set fixed in DESIGN.md §C20 (no tabs/CRLF, '-' bullets, backtick fences, double-quoted titles, escaped punctuation from the formatter's escape set plus neutral punctuation)", "writer faults: the k-th Write/WriteString call fails, k a solver variable in 1..K; both io.Writer-only and io.StringWriter writers"}, commonAssumptions...), QuickSec: 200, ThoroughSec: 1300,
+	c20 := &PropSpec{ID: "C20", Level: "model_checking", Assumptions: append([]string{"canonical-style documents: the C06 generator restricted to the construct set fixed in DESIGN.md §C20 (no tabs/CRLF, '-' bullets, backtick fences, double-quoted titles, escaped punctuation from the formatter's escape set plus neutral punctuation)", "writer faults: the k-th Write/WriteString call fails, k a solver variable in 1..K; both io.Writer-only and io.StringWriter writers"}, commonAssumptions...), QuickSec: 200, ThoroughSec: 1000,
 		Explanation: "bounded symbolic execution of Parse+Format on F(n) with healthy and failing writers (error identity, no write after error, determinism, tree frozen), and of Format(Parse(d)) for every canonical document d within the node budget: rendered HTML preserved and a second Format reproduces the text byte for byte"}
 	for n := int64(1); n <= 3; n++ {
 		fm(c20, "H_C20_total", n, 6, fmt.Sprintf("F(%d), writer failing at call k in 1..6", n), "quick")
@@ -528,6 +541,14 @@ func propSpecs() map[string]*PropSpec {
 	for cont := int64(0); cont <= 4; cont++ {
 		fm(c20, "H_C20_esc", 3, cont, fmt.Sprintf("3 escaped punctuation bytes (free) in context %d (top level / bullet / ordered / quote / continuation line)", cont), "quick")
 		fm(c20, "H_C20_esc", 4, cont, fmt.Sprintf("4 escaped punctuation bytes in context %d", cont), "thorough")
+	}
+	for o := int64(0); o < 3; o++ {
+		for i := int64(0); i < 3; i++ {
+			fm(c20, "H_C20_nest", o, i, fmt.Sprintf("nesting matrix: container %d inside container %d (0 quote, 1 bullet, 2 ordered) x 3 contents with blank lines", i, o), "quick")
+		}
+	}
+	for i := int64(0); i < 6; i++ {
+		fm(c20, "H_C20_fault", i, 24, fmt.Sprintf("fixed document %d, writer failing at call k in 1..24, both writer kinds", i), "quick")
 	}
 	fm(c20, "H_C20_canon", 1, 0, "canonical documents of <= 1 node, reduced menus", "quick")
 	fm(c20, "H_C20_canon", 2, 0, "canonical documents of <= 2 nodes, reduced menus", "quick")
